@@ -60,6 +60,10 @@ PROPS = {
     "C14": dict(families=["iter", "iter_clone"], keys=["out", "ret"], cfgs=any_cfg, release=False, leak_free=True),
     "C18": dict(families=["capacity", "elem", "range", "clone", "random"], keys=["out", "cap", "ev_alloc"],
                 cfgs=is_heap, release=True, leak_free=True),
+    # the harness is linked against any_vec built with default features disabled; the same cases also run
+    # on the default build and the two implementations' full trace lines must be identical
+    "C19": dict(families=["elem", "range", "clone", "views"], keys=["out", "ret", "len", "cap", "snap", "ev_user", "ev_alloc"],
+                cfgs=is_stack, release=False, leak_free=True, harness="noalloc", static="c19"),
 }
 
 def parse_cfg_key(key, trap=1):
@@ -209,6 +213,44 @@ def theorem_status(pid):
         res.append((n, False, "no Print Assumptions for this theorem"))
     return res, out
 
+def theorem_status_safe(pid, broken):
+    try:
+        thms, out = theorem_status(pid)
+        return thms or [], out
+    except core.ObligationBroken as e:
+        broken.append("theorem %s_table_ok (AV/Props/%s.v) no longer checks against the regenerated table:\n%s" % (pid, pid, e.output[-800:]))
+        return [], ""
+
+def c19_static(pid):
+    """regenerate AV/Gen/C19Table.v from /repo, rebuild, evaluate the rule cell by cell"""
+    from . import c19
+    viol, broken, cov = [], [], {}
+    d = os.path.join(ROOT, "replays"); os.makedirs(d, exist_ok=True)
+    try:
+        rows, facts = c19.regenerate()
+        builds = c19.build_probes()
+        n = c19.write_table(rows, facts, builds)
+        core.ensure_coq()
+        bad = c19.rule(rows, facts, builds)
+        seen = set()
+        for what, detail in bad:
+            if what in seen:
+                continue
+            seen.add(what)
+            similar = [b[1] for b in bad if b[0] == what]
+            path = os.path.join(d, "%s-%s.json" % (pid, what))
+            json.dump(dict(property=pid, failing=what, items=similar[:40], detail=detail[:1500],
+                           how_to_replay="./check C19 (regenerates the API table from rustdoc JSON of /repo with and without default features)"),
+                      open(path, "w"), indent=1)
+            viol.append(("%s: %s (%d similar)" % (what, detail[:160], len(similar)), path))
+        cov.update(api_items=n, api_items_heap_related=len([r for r in rows if r["heap"]]),
+                   api_items_in_noalloc_build=len([r for r in rows if r["in_noalloc"]]),
+                   noalloc_build_links=facts.get("noalloc_crates"), build_facts={k: v for k, v in builds.items() if not k.endswith("output")},
+                   violating_items=len(bad))
+    except core.BuildBroken as e:
+        broken.append("translator corr.%s.table: %s\n%s" % (pid, e.what, e.output[-1500:]))
+    return viol, broken, cov
+
 def run_check(pid, tier, seed, replay, t0):
     if pid not in PROPS and pid not in STATIC:
         print("property %s is not claimed by this framework" % pid)
@@ -223,7 +265,10 @@ def run_check(pid, tier, seed, replay, t0):
     # ---------------- proof step
     coq_s = core.ensure_coq()
     forb = core.grep_forbidden()
-    thms, _ = theorem_status(pid)
+    if spec.get("static"):
+        thms = []           # decided after the table has been regenerated from /repo
+    else:
+        thms, _ = theorem_status(pid)
     thms = thms or []
     open_thms = [t for t in thms if not t[1]]
     # ---------------- correspondence step
@@ -231,7 +276,7 @@ def run_check(pid, tier, seed, replay, t0):
     build_failure = None
     routing, bindirs = {}, {}
     try:
-        routing, bindirs = core.ensure_harness(tier, ("debug", "release") if spec.get("release") else ("debug",))
+        routing, bindirs = core.ensure_harness(spec.get("harness", tier), ("debug", "release") if spec.get("release") else ("debug",))
     except core.BuildBroken as e:
         build_failure = e
     failures = []
@@ -286,6 +331,34 @@ def run_check(pid, tier, seed, replay, t0):
             else:
                 f.update(cfg=cfg, steps=steps, family=fam, cid=cid)
                 failures.append(f)
+    # ---------------- the same cases on the default build (C19: behaviour identical to the default build)
+    extra_cov = {}
+    static_broken, static_viol = [], []
+    if spec.get("harness") == "noalloc" and build_failure is None:
+        try:
+            drouting, dbindirs = core.ensure_harness(tier, ("debug",))
+            common = [c for c in cases if core.cfg_key(c[1]) in drouting]
+            _, dimpl, _ = core.run_batches([(c[0], c[1], c[2]) for c in common], model_exe, drouting, dbindirs,
+                                           os.path.join(core.CACHE, "work", pid + "-default"), pid + "d")
+            ndiff = 0
+            for cid, cfg, steps, fam in common:
+                a = [l.get("_raw") for l in impl.get(cid, []) if "_raw" in l]
+                b = [l.get("_raw") for l in dimpl.get(cid, []) if "_raw" in l]
+                if a != b:
+                    ndiff += 1
+                    i = next((k for k in range(min(len(a), len(b))) if a[k] != b[k]), min(len(a), len(b)))
+                    if not any(f.get("cid") == cid for f in failures):
+                        failures.append(dict(step=min(i, len(steps) - 1), key="differs-from-default-build",
+                                             expected=(b[i] if i < len(b) else "<no line>"), observed=(a[i] if i < len(a) else "<no line>"),
+                                             cfg=cfg, steps=steps, family=fam, cid=cid))
+            extra_cov.update(cases_also_run_on_default_build=len(common), differing_from_default_build=ndiff)
+        except core.BuildBroken as e:
+            static_broken.append("corr.%s.default-build: %s" % (pid, e.what))
+    if spec.get("static") == "c19":
+        sv, sb, sc = c19_static(pid)
+        static_viol += sv; static_broken += sb; extra_cov.update(sc)
+        thms, _ = theorem_status_safe(pid, static_broken)
+        open_thms = [t for t in thms if not t[1]]
     # ---------------- decision
     seen_sig = {}
     for f in failures:
@@ -309,7 +382,10 @@ def run_check(pid, tier, seed, replay, t0):
         print("  failing input (%d similar): cfg=%s step=%r key=%s expected=%s observed=%s" %
               (cnt, core.cfg_key(f["cfg"]), f["steps"][f["step"]] if f["step"] < len(f["steps"]) else "end", f["key"],
                f["expected"][:120], f["observed"][:120]))
-    broken = []
+    for text, path in static_viol:
+        print("  failing input: " + text)
+        violations.append("VIOLATION property=%s replay=%s" % (pid, path))
+    broken = list(static_broken)
     if forb:
         broken.append("forbidden words in the Coq development: " + "; ".join(forb[:5]))
     if open_thms:
@@ -355,7 +431,7 @@ def run_check(pid, tier, seed, replay, t0):
             input_distribution=dict(ops=dict(stats["ops"]), outcomes=dict(stats["outs"]),
                                     configurations=len(stats["cfgs"])),
             known_findings_printed=sorted(seen_known), crashed_shards=len(crashed),
-            coq_build_s=round(coq_s, 1),
+            coq_build_s=round(coq_s, 1), **extra_cov
         ),
         assumptions=ASSUMPTIONS,
         wall_s=round(time.time() - t0, 1), violations=len(violations))
